@@ -909,6 +909,19 @@ pub fn generate(thorough: bool, rng: &mut Rng, out: &mut Vec<String>) {
             resp = no_timeout_key(resp);
             stmd = no_timeout_key(stmd);
         }
+        if tx == 2 {
+            // the grpc-web trailers block is an HTTP/1 field block (`name:value\r\n`): optional
+            // whitespace after the colon is not part of a value there (RFC 9110 5.5; tonic-web's
+            // reader cuts one space, C17's model says so), so a value that BEGINS with a space is
+            // not something that format can carry - not asked of it here
+            for e in stmd.iter_mut() {
+                if !e.0 {
+                    while e.2.first() == Some(&b' ') {
+                        e.2.remove(0);
+                    }
+                }
+            }
+        }
         out.push(format!("e2x {} {} {} {} {} {} {} {}", knobs_tok(k), mode, code, hex(msg.as_bytes()), hex(&det), typed_tok(&req), typed_tok(&resp), typed_tok(&stmd)));
     }
     // ---- a peer that is not tonic
